@@ -28,6 +28,7 @@ def build(loci0, bg0, variant):
     rng = random.Random(variant)
     with_bw = variant % 3 != 0
     outw = W if variant % 3 == 1 else 4
+    beta0 = with_bw and variant % 5 == 4         # signal_beta = 0: the bound is exactly 0, only tiles without any signal are eligible
     exact_bounds = (variant // 3) % 2 == 0
     blocks = []         # each block: list of tiles (dicts)
 
@@ -41,7 +42,8 @@ def build(loci0, bg0, variant):
             blocks.append(blk)
     for b, n in enumerate(bg0):
         for _ in range(n):
-            blocks.append([dict(kind="bg", gc=gc_for(b), n=rng.choice([0, 0, 1, 2]) if b > 0 else 0, sig=rng.choice(["low", "flank"]) if outw < W else "low")])
+            blocks.append([dict(kind="bg", gc=gc_for(b), n=rng.choice([0, 0, 1, 2]) if b > 0 else 0,
+                                sig=(rng.choice(["zero", "zero", "low"]) if beta0 else rng.choice(["low", "flank"]) if outw < W else "low"))])
     for _ in range(rng.randint(0, 3)):      # decoys: too many N
         blocks.append([dict(kind="ndecoy", gc=rng.randint(0, 5), n=3, sig="low")])
     if with_bw:
@@ -67,6 +69,8 @@ def build(loci0, bg0, variant):
             if t["sig"] == "locus":
                 for q in range(lf, W - rf):
                     v[q] = 100.0 / outw
+            elif t["sig"] == "zero":
+                pass
             elif t["sig"] == "high":
                 for q in range(lf, W - rf):
                     v[q] = 80.0 / outw
@@ -114,12 +118,12 @@ def build(loci0, bg0, variant):
             sigok = True
             if with_bw:
                 central = sum(vals[k * W + (W - outw) // 2: k * W + W - (W - outw + 1) // 2])
-                sigok = central <= 50.0 + 1e-9
+                sigok = central <= (0.0 if beta0 else 50.0) + 1e-9
             f.append([(gcn + 1) // 2, nn <= 2, bool(sigok), k in masked, t["kind"] == "locus"])
         facts.append(f)
     rng.shuffle(loci_rows)
     return dict(names=names, fa="\n".join(fa_lines) + "\n", bw=bw_vals if with_bw else None, loci=loci_rows, facts=facts, lens=lens,
-                outw=outw)
+                outw=outw, beta=0.0 if beta0 else 0.5)
 
 
 def run_case(loci0, bg0, variant):
@@ -139,6 +143,10 @@ def run_case(loci0, bg0, variant):
     ev = dict(op="match", tiles=g["facts"], lens=g["lens"], w=W, nbins=5, ret=[], ret2=[], loci=[[g["names"].index(r[0]), r[1], r[2]] for r in g["loci"]],
               outw=g["outw"], bigwig=bwp is not None, variant=variant, loci0=loci0, bg0=bg0)
     df = pandas.DataFrame(g["loci"], columns=["chrom", "start", "end"])
+    if variant % 4 == 1 and len(df) > 1:        # a table that was sorted / filtered without reset_index: labels are not 0..n-1 in order
+        df = df.sort_values(["start", "chrom"])
+        if variant % 8 == 1:
+            df.index = [10 + 3 * k for k in range(len(df))][::-1]
     if not len(df):
         ev["st"] = "skip"
         return ev
@@ -146,7 +154,7 @@ def run_case(loci0, bg0, variant):
         outs = []
         for nj in (1, 2 if len(g["names"]) < 4 or variant % 2 else 3):
             r = extract_matching_loci(df, fa, in_window=W, out_window=g["outw"], max_n_perc=MAX_N, gc_bin_width=BINW, bigwig=bwp,
-                                      signal_beta=0.5, chroms=list(g["names"]), random_state=variant, n_jobs=nj)
+                                      signal_beta=g["beta"], chroms=list(g["names"]), random_state=variant, n_jobs=nj)
             outs.append([[g["names"].index(c), int(s), int(e)] for c, s, e in zip(r["chrom"], r["start"], r["end"])])
         ev["ret"], ev["ret2"] = outs
         ev["st"] = "ok"
